@@ -251,7 +251,8 @@ func recoverDefers(fn *Func) []*ast.DeferStmt {
 	}
 	ast.Inspect(fn.Body, func(n ast.Node) bool {
 		if _, isLit := n.(*ast.FuncLit); isLit && n != ast.Node(fn.Lit) {
-			// do not look into nested literals other than the deferred ones handled below
+			// nested literals are functions of their own
+			return false
 		}
 		d, ok := n.(*ast.DeferStmt)
 		if !ok {
@@ -560,65 +561,68 @@ func c06r2(c *RC) {
 
 func c06r3(c *RC) {
 	pr := c.P
-	// readerFuncSliceReader.Read: e != nil: EOF or temporary kept; else Fatal; stored in r.err; returned
-	if fn := c.MustFn(".(*readerFuncSliceReader).Read"); fn != nil {
-		fq := fn.QName()
-		stickyFirst(c, fn)
-		var keep, wrap bool
+	// classify: an if whose condition says "<e> is end-of-stream or temporary" (reader)
+	// or "<e> is temporary" (writer) keeps <e>; its else wraps <e> as errors.Fatal;
+	// both store into the same target.
+	classify := func(fn *Func, wantEOF bool) (keep, wrap bool, target string) {
 		ast.Inspect(fn.Body, func(n ast.Node) bool {
 			ifs, ok := n.(*ast.IfStmt)
 			if !ok {
 				return true
 			}
-			t := strings.ReplaceAll(nodeSrc(pr, ifs.Cond), " ", "")
-			if strings.Contains(t, "err==sliceio.EOF||errors.IsTemporary(err)") {
-				for _, st := range ifs.Body.List {
-					if a, ok := st.(*ast.AssignStmt); ok && expr(a.Lhs[0]) == "r.err" && expr(a.Rhs[0]) == "err" {
-						keep = true
+			var tempArg string
+			hasEOF := false
+			ast.Inspect(ifs.Cond, func(m ast.Node) bool {
+				switch x := m.(type) {
+				case *ast.CallExpr:
+					if fn.Pkg.CalleeName(x) == "github.com/grailbio/base/errors.IsTemporary" && len(x.Args) == 1 {
+						tempArg = expr(x.Args[0])
+					}
+				case *ast.BinaryExpr:
+					if x.Op == token.EQL && strings.HasSuffix(expr(x.Y), "EOF") {
+						hasEOF = true
 					}
 				}
-				if el, ok := ifs.Else.(*ast.BlockStmt); ok {
-					for _, st := range el.List {
-						if a, ok := st.(*ast.AssignStmt); ok && expr(a.Lhs[0]) == "r.err" && strings.ReplaceAll(nodeSrc(pr, a.Rhs[0]), " ", "") == "errors.E(errors.Fatal,err)" {
-							wrap = true
-						}
+				return true
+			})
+			if tempArg == "" || hasEOF != wantEOF {
+				return true
+			}
+			el, ok := ifs.Else.(*ast.BlockStmt)
+			if !ok {
+				return true
+			}
+			for _, st := range ifs.Body.List {
+				if a, ok := st.(*ast.AssignStmt); ok && len(a.Lhs) == 1 && expr(a.Rhs[0]) == tempArg {
+					keep = true
+					target = expr(a.Lhs[0])
+				}
+			}
+			for _, st := range el.List {
+				if a, ok := st.(*ast.AssignStmt); ok && len(a.Lhs) == 1 && expr(a.Lhs[0]) == target {
+					if k, ok := a.Rhs[0].(*ast.CallExpr); ok && fn.Pkg.CalleeName(k) == "github.com/grailbio/base/errors.E" && len(k.Args) == 2 && expr(k.Args[0]) == "errors.Fatal" && expr(k.Args[1]) == tempArg {
+						wrap = true
 					}
 				}
 			}
 			return true
 		})
-		c.Check(keep && wrap, fq+"|user-error-classification", pr.Pos(fn.Body.Pos()), "a reader function's error is no longer kept as is only for end-of-stream and temporary errors and wrapped errors.Fatal otherwise: a persistent user error is retried as a lost task (or a temporary one fails the run)")
+		return
+	}
+	if fn := c.MustFn(".(*readerFuncSliceReader).Read"); fn != nil {
+		fq := fn.QName()
+		sticky := stickyFirst(c, fn)
+		keep, wrap, target := classify(fn, true)
+		c.Check(keep && wrap && target == sticky, fq+"|user-error-classification", pr.Pos(fn.Body.Pos()), "a reader function's error is no longer kept as is only for end-of-stream and temporary errors and wrapped errors.Fatal otherwise (stored in the sticky error): a persistent user error is retried as a lost task (or a temporary one fails the run)")
 		okRet := false
-		if last, ok := fn.Body.List[len(fn.Body.List)-1].(*ast.ReturnStmt); ok && len(last.Results) == 2 && expr(last.Results[1]) == "r.err" {
+		if last, ok := fn.Body.List[len(fn.Body.List)-1].(*ast.ReturnStmt); ok && len(last.Results) == 2 && expr(last.Results[1]) == sticky && sticky != "" {
 			okRet = true
 		}
 		c.Check(okRet, fq+"|returns-sticky-error", pr.Pos(fn.Body.Pos()), "the reader function's error is not what Read returns")
 	}
 	if fn := c.MustFn(".(*writerFuncReader).Read"); fn != nil {
 		fq := fn.QName()
-		var keep, wrap bool
-		ast.Inspect(fn.Body, func(n ast.Node) bool {
-			ifs, ok := n.(*ast.IfStmt)
-			if !ok {
-				return true
-			}
-			t := strings.ReplaceAll(nodeSrc(pr, ifs.Cond), " ", "")
-			if t == "errors.IsTemporary(werr)" {
-				for _, st := range ifs.Body.List {
-					if a, ok := st.(*ast.AssignStmt); ok && expr(a.Lhs[0]) == "err" && expr(a.Rhs[0]) == "werr" {
-						keep = true
-					}
-				}
-				if el, ok := ifs.Else.(*ast.BlockStmt); ok {
-					for _, st := range el.List {
-						if a, ok := st.(*ast.AssignStmt); ok && expr(a.Lhs[0]) == "err" && strings.ReplaceAll(nodeSrc(pr, a.Rhs[0]), " ", "") == "errors.E(errors.Fatal,werr)" {
-							wrap = true
-						}
-					}
-				}
-			}
-			return true
-		})
+		keep, wrap, _ := classify(fn, false)
 		c.Check(keep && wrap, fq+"|user-error-classification", pr.Pos(fn.Body.Pos()), "a writer function's error is no longer kept when temporary and wrapped errors.Fatal otherwise")
 	}
 }
@@ -664,7 +668,7 @@ func c06r5(c *RC) {
 						}
 					case *ast.AssignStmt:
 						for _, l := range x.Lhs {
-							if expr(l) == "err" {
+							if id, ok := l.(*ast.Ident); ok && c06isErrResult(fn, id) {
 								assigned = true
 							}
 						}
@@ -727,7 +731,7 @@ func c06r6(c *RC) {
 			if atSet(s) {
 				isNil := false
 				for _, f := range s.Facts {
-					if stripAt(f.key) == "err" && f.eq && f.val == "nil" {
+					if stripAt(f.key) == c06errResultName(fn) && f.eq && f.val == "nil" {
 						isNil = true
 					}
 				}
@@ -822,4 +826,40 @@ func c06closureDefersPut(pr *Prog, u *userReach, fn *Func, name string, call *as
 		}
 	}
 	return false
+}
+
+// c06isErrResult: id denotes a named result of type error of fn (or of an
+// enclosing function, for handlers in nested literals).
+func c06isErrResult(fn *Func, id *ast.Ident) bool {
+	o := fn.Pkg.Info.Uses[id]
+	if o == nil {
+		o = fn.Pkg.Info.Defs[id]
+	}
+	for f := fn; f != nil; f = f.Parent {
+		if f.Type == nil || f.Type.Results == nil {
+			continue
+		}
+		for _, r := range f.Type.Results.List {
+			if expr(r.Type) != "error" {
+				continue
+			}
+			for _, nm := range r.Names {
+				if f.Pkg.Info.Defs[nm] == o && o != nil {
+					return true
+				}
+			}
+		}
+	}
+	return false
+}
+
+func c06errResultName(fn *Func) string {
+	if fn.Type != nil && fn.Type.Results != nil {
+		for _, r := range fn.Type.Results.List {
+			if expr(r.Type) == "error" && len(r.Names) > 0 {
+				return r.Names[0].Name
+			}
+		}
+	}
+	return "err"
 }
